@@ -150,6 +150,13 @@ func (t *ServerTransport) handleDataRequest(w http.ResponseWriter, r *http.Reque
 		return
 	}
 
+	if t.maxHTTPBufferSize > 0 {
+		// Content-Length may be absent (chunked transfer encoding) or understated:
+		// bound what is actually read. Exceeding the limit fails the read below,
+		// which closes the transport.
+		r.Body = http.MaxBytesReader(w, r.Body, t.maxHTTPBufferSize)
+	}
+
 	var (
 		packets []*parser.Packet
 		jsonp   = r.URL.Query().Get("j")
